@@ -106,19 +106,19 @@ type DoneObs struct {
 }
 
 type HRes struct {
-	K      int         `json:"k"`
-	Fails  []failRec   `json:"fails"`
-	Trace  []Ev        `json:"trace"`
-	Done   [][]DoneObs `json:"done"` // per client, in the order the results were accepted
-	Exec   [][]int     `json:"exec"` // per client, job ids in execution order
+	K      int            `json:"k"`
+	Fails  []failRec      `json:"fails"`
+	Trace  []Ev           `json:"trace"`
+	Done   [][]DoneObs    `json:"done"` // per client, in the order the results were accepted
+	Exec   [][]int        `json:"exec"` // per client, job ids in execution order
 	Stats  map[string]int `json:"stats"`
-	Diag   []string    `json:"diag,omitempty"`
-	Ms     int64       `json:"ms"`
-	Panic  string      `json:"panic,omitempty"`
-	Jobs   int         `json:"jobs"`
-	Frag   int         `json:"fragmented_jobs"`
-	Chan   int         `json:"channel_switches"`
-	Rekeys int         `json:"rekeys"`
+	Diag   []string       `json:"diag,omitempty"`
+	Ms     int64          `json:"ms"`
+	Panic  string         `json:"panic,omitempty"`
+	Jobs   int            `json:"jobs"`
+	Frag   int            `json:"fragmented_jobs"`
+	Chan   int            `json:"channel_switches"`
+	Rekeys int            `json:"rekeys"`
 }
 
 // ---------------------------------------------------------------- memory log (diagnostics only)
@@ -250,6 +250,9 @@ type jobRec struct {
 	job     *c2.Job
 	nfrag   int
 
+	inChan   bool          // the session was (asked to be) in channel mode at some time while the job was outstanding
+	lostCh   chan struct{} // closed by the monitor when nothing is in flight any more but the job is still tracked
+	isLost   bool
 	updDone  int32 // Update calls that saw the finished Job
 	updAll   int32
 	seq      int64 // completion order (Update), 0 = not seen by Update
@@ -259,17 +262,27 @@ type jobRec struct {
 }
 
 type hrun struct {
-	h     Hist
-	log   *memLog
-	mu    sync.Mutex // trace + accounting
-	cond  *sync.Cond
-	trace []Ev
-	jobs  []*jobRec
-	outJ  []int // outstanding jobs per client
-	outS  []int // outstanding slots per client
-	seq   int64
-	fails []failRec
-	done  [][]*jobRec // per client, in waiter order
+	h      Hist
+	log    *memLog
+	mu     sync.Mutex // trace + accounting
+	cond   *sync.Cond
+	trace  []Ev
+	jobs   []*jobRec
+	outJ   []int // outstanding jobs per client
+	outS   []int // outstanding slots per client
+	seq    int64
+	fails  []failRec
+	done   [][]*jobRec // per client, in waiter order
+	lastEv []time.Time // per client: last Task / completion
+}
+
+// markChan (r.mu held): every outstanding job of client c lived through channel mode
+func markChan(r *hrun, c int) {
+	for _, j := range r.jobs {
+		if j.c == c && !j.inChan && atomic.LoadInt32(&j.waited) == 0 {
+			j.inChan = true
+		}
+	}
 }
 
 func (r *hrun) fail(what, key string) {
@@ -343,13 +356,17 @@ func waitCh(ch <-chan struct{}, d time.Duration) bool {
 	}
 }
 
-func shape(h Hist, j *jobRec, chanUsed bool) string {
-	s := h.Profile + "/" + j.kind
+// shape of the history around a job: profile stack, fragmentation, channel mode during its life
+func shape(h Hist, j *jobRec) string {
+	s := ""
+	if j.inChan {
+		s += "/chan"
+	}
 	if j.nfrag > 1 {
 		s += "/frag"
 	}
-	if chanUsed {
-		s += "/chan"
+	if h.Profile != "none" {
+		s += "/" + h.Profile
 	}
 	return s
 }
@@ -357,7 +374,7 @@ func shape(h Hist, j *jobRec, chanUsed bool) string {
 func runHist(h Hist, idSeed uint64) (res HRes) {
 	t0 := time.Now()
 	res.K, res.Stats = h.K, map[string]int{}
-	r := &hrun{h: h, log: &memLog{t0: t0}, outJ: make([]int, h.NCl), outS: make([]int, h.NCl), done: make([][]*jobRec, h.NCl)}
+	r := &hrun{h: h, log: &memLog{t0: t0}, outJ: make([]int, h.NCl), outS: make([]int, h.NCl), done: make([][]*jobRec, h.NCl), lastEv: make([]time.Time, h.NCl)}
 	r.cond = sync.NewCond(&r.mu)
 	defer func() {
 		if e := recover(); e != nil {
@@ -430,6 +447,7 @@ func runHist(h Hist, idSeed uint64) (res HRes) {
 	var (
 		keys0    = make([]uint32, h.NCl)
 		chanUsed = make([]bool, h.NCl)
+		chanOn   = make([]bool, h.NCl)
 		chanSeen = make([]bool, h.NCl)
 		serial   uint32
 		wg       sync.WaitGroup
@@ -458,9 +476,56 @@ func runHist(h Hist, idSeed uint64) (res HRes) {
 					res.Rekeys++
 					r.mu.Unlock()
 				}
-				if c2.VerifC05State(c.ss)&stChannel != 0 && c2.VerifC05State(c.sess)&stChannel != 0 {
+				sc, cc := c2.VerifC05State(c.ss)&stChannel != 0, c2.VerifC05State(c.sess)&stChannel != 0
+				if sc && cc {
 					chanSeen[i] = true
 				}
+				if sc || cc {
+					r.mu.Lock()
+					markChan(r, i)
+					r.mu.Unlock()
+				}
+			}
+		}
+	}()
+	// monitor: a session with tracked jobs but nothing queued on either end for `quiet` has lost them
+	quiet := 2500 * time.Millisecond
+	if h.Profile != "none" {
+		quiet = 5 * time.Second
+	}
+	pollWg.Add(1)
+	go func() {
+		defer pollWg.Done()
+		since := make([]time.Time, h.NCl)
+		for i := range since {
+			since[i] = time.Now()
+		}
+		for {
+			select {
+			case <-stop:
+				return
+			case <-time.After(25 * time.Millisecond):
+			}
+			for i, c := range clients {
+				q, pk, _ := c2.VerifC05Queue(c.ss)
+				cq, cpk, _ := c2.VerifC05Queue(c.sess)
+				r.mu.Lock()
+				last := since[i]
+				if r.lastEv[i].After(last) {
+					last = r.lastEv[i]
+				}
+				if q > 0 || pk || cq > 0 || cpk || r.outJ[i] == 0 {
+					since[i] = time.Now() // last time something was queued (or nothing was outstanding)
+				} else if time.Since(last) >= quiet {
+					for _, j := range r.jobs {
+						if j.c == i && !j.isLost && atomic.LoadInt32(&j.waited) == 0 {
+							j.isLost = true
+							close(j.lostCh)
+						}
+					}
+					since[i] = time.Now()
+				}
+				r.mu.Unlock()
 			}
 		}
 	}()
@@ -480,13 +545,15 @@ func runHist(h Hist, idSeed uint64) (res HRes) {
 			r.mu.Lock()
 			c.ss.SetChannel(op.On)
 			r.trace = append(r.trace, Ev{T: "chan", C: op.C, On: op.On})
+			chanOn[op.C] = op.On
 			if op.On {
 				chanUsed[op.C] = true
+				markChan(r, op.C)
 			}
 			res.Chan++
 			r.mu.Unlock()
 		case "task", "sleep", "jitter":
-			j := &jobRec{c: op.C, kind: "echo", size: op.Size, nfrag: 1}
+			j := &jobRec{c: op.C, kind: "echo", size: op.Size, nfrag: 1, lostCh: make(chan struct{})}
 			if op.Kind != "task" {
 				j.kind, j.val = op.Kind, int64(op.Val)
 			} else {
@@ -541,6 +608,8 @@ func runHist(h Hist, idSeed uint64) (res HRes) {
 					}
 				}
 			}
+			j.inChan = chanOn[op.C] || c2.VerifC05State(c.ss)&stChannel != 0 || c2.VerifC05State(c.sess)&stChannel != 0
+			r.lastEv[op.C] = time.Now()
 			r.jobs = append(r.jobs, j)
 			r.outJ[op.C]++
 			r.outS[op.C] += j.nfrag
@@ -551,12 +620,25 @@ func runHist(h Hist, idSeed uint64) (res HRes) {
 				defer wg.Done()
 				d := make(chan struct{})
 				go func() { j.job.Wait(); close(d) }()
-				if !waitCh(d, waitDeadline+5*time.Second) {
+				ok := false
+				select {
+				case <-d:
+					ok = true
+				case <-j.lostCh:
+				case <-time.After(waitDeadline + 5*time.Second):
+				}
+				if !ok {
+					r.mu.Lock()
+					r.outJ[j.c]--
+					r.outS[j.c] -= j.nfrag
+					r.cond.Broadcast()
+					r.mu.Unlock()
 					return
 				}
 				atomic.StoreInt32(&j.waited, 1)
 				r.mu.Lock()
 				j.resFirst = j.job.Result
+				r.lastEv[j.c] = time.Now()
 				r.outJ[j.c]--
 				r.outS[j.c] -= j.nfrag
 				r.trace = append(r.trace, Ev{T: "done", C: j.c, J: int(j.id)})
@@ -588,12 +670,11 @@ func runHist(h Hist, idSeed uint64) (res HRes) {
 	r.mu.Lock()
 	defer r.mu.Unlock()
 	res.Jobs = len(r.jobs)
-	anyChan := func(c int) bool { return chanUsed[c] }
 	lost := 0
 	for _, j := range r.jobs {
 		var (
 			c  = clients[j.c]
-			sh = shape(h, j, anyChan(j.c))
+			sh = shape(h, j)
 		)
 		if j.nfrag > 1 {
 			res.Frag++
@@ -610,42 +691,42 @@ func runHist(h Hist, idSeed uint64) (res HRes) {
 				}
 			}
 			c.mu.Unlock()
-			r.fails = append(r.fails, failRec{fmt.Sprintf("job %d (%s, %d bytes, %d fragment(s)) of client %d never completed within %s: status %d, executed %d time(s) on its client; "+
-				"server queue %d peek %v tracked %d frags %d, client queue %d peek %v frags %d", j.id, j.kind, j.size, j.nfrag, j.c, waitDeadline, j.job.Status, ran,
-				q, pk, nj, c2.VerifC05Frags(c.ss), cq, cpk, c2.VerifC05Frags(c.sess)), "incomplete/" + sh})
+			r.fails = append(r.fails, failRec{fmt.Sprintf("job %d (%s, %d bytes, %d fragment(s)) of client %d never completed (%s): status %d, executed %d time(s) on its client; "+
+				"server queue %d peek %v tracked %d frags %d, client queue %d peek %v frags %d", j.id, j.kind, j.size, j.nfrag, j.c, lostWhy(j, quiet), j.job.Status, ran,
+				q, pk, nj, c2.VerifC05Frags(c.ss), cq, cpk, c2.VerifC05Frags(c.sess)), "incomplete" + sh})
 			continue
 		}
 		if j.job.Status != statusDone || j.job.Result == nil || len(j.job.Error) > 0 {
-			r.fails = append(r.fails, failRec{fmt.Sprintf("job %d of client %d finished with status %d error %q (result nil: %v)", j.id, j.c, j.job.Status, j.job.Error, j.job.Result == nil), "status/" + sh})
+			r.fails = append(r.fails, failRec{fmt.Sprintf("job %d of client %d finished with status %d error %q (result nil: %v)", j.id, j.c, j.job.Status, j.job.Error, j.job.Result == nil), "status" + sh})
 			continue
 		}
 		if n := atomic.LoadInt32(&j.updDone); n > 1 {
-			r.fails = append(r.fails, failRec{fmt.Sprintf("job %d of client %d: %d Update calls saw the finished Job", j.id, j.c, n), "completed-twice/" + sh})
+			r.fails = append(r.fails, failRec{fmt.Sprintf("job %d of client %d: %d Update calls saw the finished Job", j.id, j.c, n), "completed-twice" + sh})
 		} else if n == 0 {
 			res.Stats["update_not_seen"]++
 		}
 		if j.job.Result != j.resFirst {
-			r.fails = append(r.fails, failRec{fmt.Sprintf("job %d of client %d: the Result was replaced after the Job had completed", j.id, j.c), "result-replaced/" + sh})
+			r.fails = append(r.fails, failRec{fmt.Sprintf("job %d of client %d: the Result was replaced after the Job had completed", j.id, j.c), "result-replaced" + sh})
 		}
 		if j.job.Result.Device != c.id {
-			r.fails = append(r.fails, failRec{fmt.Sprintf("job %d of client %d: the result packet carries another device id", j.id, j.c), "foreign-device/" + sh})
+			r.fails = append(r.fails, failRec{fmt.Sprintf("job %d of client %d: the result packet carries another device id", j.id, j.c), "foreign-device" + sh})
 		}
 		if j.kind == "echo" {
 			j.job.Result.Seek(0, 0)
 			got := j.job.Result.Payload()
 			if string(got) != string(echoResult(c.id, j.payload)) {
 				r.fails = append(r.fails, failRec{fmt.Sprintf("job %d of client %d (%d bytes): the result (%d bytes) is not the echo of its own payload by its own client (%s)",
-					j.id, j.c, j.size, len(got), describeResult(clients, r.jobs, got)), "wrong-result/" + sh})
+					j.id, j.c, j.size, len(got), describeResult(clients, r.jobs, got)), "wrong-result" + sh})
 			}
 		} else {
 			jit, sl, ok := decodeTime(j.job.Result)
 			switch {
 			case !ok:
-				r.fails = append(r.fails, failRec{fmt.Sprintf("job %d of client %d (%s): result does not parse", j.id, j.c, j.kind), "wrong-result/" + sh})
+				r.fails = append(r.fails, failRec{fmt.Sprintf("job %d of client %d (%s): result does not parse", j.id, j.c, j.kind), "wrong-result" + sh})
 			case j.kind == "sleep" && sl != int64(time.Duration(j.val)*time.Millisecond):
-				r.fails = append(r.fails, failRec{fmt.Sprintf("SetSleep job %d of client %d asked for %d ms, its result reports %d ns", j.id, j.c, j.val, sl), "wrong-result/" + sh})
+				r.fails = append(r.fails, failRec{fmt.Sprintf("SetSleep job %d of client %d asked for %d ms, its result reports %d ns", j.id, j.c, j.val, sl), "wrong-result" + sh})
 			case j.kind == "jitter" && int64(jit) != j.val:
-				r.fails = append(r.fails, failRec{fmt.Sprintf("SetJitter job %d of client %d asked for %d, its result reports %d", j.id, j.c, j.val, jit), "wrong-result/" + sh})
+				r.fails = append(r.fails, failRec{fmt.Sprintf("SetJitter job %d of client %d asked for %d, its result reports %d", j.id, j.c, j.val, jit), "wrong-result" + sh})
 			}
 		}
 	}
@@ -723,6 +804,13 @@ func runHist(h Hist, idSeed uint64) (res HRes) {
 	}
 	res.Stats["log_lines"] = len(r.log.lines)
 	return res
+}
+
+func lostWhy(j *jobRec, quiet time.Duration) string {
+	if j.isLost {
+		return fmt.Sprintf("nothing queued on either end for %s", quiet)
+	}
+	return fmt.Sprintf("deadline %s", waitDeadline)
 }
 
 func waitCond(c *sync.Cond, d time.Duration) {
@@ -811,6 +899,14 @@ func describeResult(clients []*cliRec, jobs []*jobRec, b []byte) string {
 }
 
 // ---------------------------------------------------------------- generation
+
+// mix spreads the seed: vh.NewRand(s) and vh.NewRand(s+1) are the same stream one draw apart
+func mix(x uint64) uint64 {
+	x += 0x9E3779B97F4A7C15
+	x = (x ^ (x >> 30)) * 0xBF58476D1CE4E5B9
+	x = (x ^ (x >> 27)) * 0x94D049BB133111EB
+	return x ^ (x >> 31)
+}
 
 func sizeGrid() []int {
 	F := limits.Frag
@@ -1087,7 +1183,7 @@ func main() {
 		rp.Input.K = 0
 		hs = []Hist{rp.Input}
 	} else {
-		hs = generate(vh.NewRand(fl.Seed), fl.Tier)
+		hs = generate(vh.NewRand(mix(fl.Seed)), fl.Tier)
 		if *drop != "" {
 			for i := range hs {
 				var ops []Op
@@ -1108,7 +1204,7 @@ func main() {
 	runChild(hs, *par, fl.Out, results, &crashes)
 	var (
 		totalJobs, totalFrag, totalChan, totalRekey, chanReached, updMiss int
-		totalMs                                                          int64
+		totalMs                                                           int64
 	)
 	for _, h := range hs {
 		res := results[h.K]
@@ -1129,7 +1225,7 @@ func main() {
 		nontrivial := maxOut >= 2 || res.Frag > 0 || res.Chan > 0 || res.Rekeys > 0
 		desc := map[string]interface{}{"history": h, "jobs": res.Jobs, "fragmented": res.Frag, "channel_switches": res.Chan, "rekeys": res.Rekeys,
 			"max_outstanding": maxOut, "ms": res.Ms, "stats": res.Stats}
-		if res.Panic == "" {
+		if res.Panic == "" && len(res.Fails) == 0 {
 			out.Add(coqCase(h, res), h.Class, nontrivial, desc)
 		} else {
 			out.Count(h.Class, fmt.Sprint(h.K), false)
